@@ -12,7 +12,7 @@ def RangeKindX.isQuantile : RangeKindX → Bool
 
 /-- the queries `plan_metric_correct_ext` covers: the selector has a label-rewriting stage (`post` starts with one: it is
     what `splitPre` leaves) or the range aggregation is `quantile_over_time` over `| unwrap`; a plain range function needs
-    such a stage (otherwise the query is one of `LogQL.supported`); range a positive whole number of milliseconds; at most 63
+    such a stage (otherwise the query is one of `LogQL.supported`); range positive; at most 63
     stream matchers; any vector aggregation, with or without grouping clause -/
 def supportedX (q : MetricQueryX) : Bool :=
   let r := q.range
@@ -21,7 +21,7 @@ def supportedX (q : MetricQueryX) : Bool :=
    | .lra _ => !r.post.isEmpty
    | .unwrap _ _ => !r.post.isEmpty
    | .quantile _ _ => true) &&
-  decide (r.durNs % 1000000 = 0) && decide (0 < r.durNs) && decide (r.sel.matchers.length ≤ 63)
+  decide (0 < r.durNs) && decide (r.sel.matchers.length ≤ 63)
 
 def shapeNameX (q : MetricQueryX) : String :=
   match q.agg, q.topk with
